@@ -359,8 +359,11 @@ func (a *Anchors) deriveRoles() {
 		}
 		recvStores := func(key string) bool {
 			for _, s := range stores {
-				if len(s.Via) <= 1 && s.Path.Kind == core.RootParam && s.Path.Index == -1 && len(s.Path.Fields()) > 0 && s.Path.Fields()[0] == key {
-					return true
+				if len(s.Via) <= 1 && s.Path.Kind == core.RootParam && s.Path.Index == -1 {
+					// (fields that merely group pinned fields of the receiver - lock.state.locks - are transparent)
+					if fs := withoutGroupKeys(m, s.Path.Fields()); len(fs) > 0 && fs[0] == key {
+						return true
+					}
 				}
 			}
 			return false
